@@ -151,7 +151,8 @@ def jobs(tier):
     out.append(Job("single-call", h_history, dict(role="master", lvl=0, ops=["update"], n=10, ack_arrives=False), cost=30, shards=6))
     out.append(Job("single-call", h_history, dict(role="master", lvl=0, ops=["multicast"], n=25, ack_arrives=False), cost=10))
     pairs = [("multicast", "write_child"), ("node_address", "write_parent"), ("multicast_level", "multicast"),
-             ("write_self", "multicast_level"), ("multicast_level", "write_parent"), ("write_parent", "node_address")]
+             ("write_self", "multicast_level"), ("multicast_level", "write_parent"), ("write_parent", "node_address"),
+             ("multicast_level", "node_address"), ("node_address", "multicast_level"), ("node_address", "node_address")]
     if tier == "thorough":
         pairs = [(a, b) for a in NET_OPS for b in NET_OPS]
     for a, b in pairs:
